@@ -49,6 +49,8 @@ class Inst:
             return "5:%s" % ("zero-zones" if n == 0 else "ranges")
         if self.fmt == "new":
             return "4:bitmap"
+        if self.fmt == "mixed":
+            return "4:mixed-records"
         return "4:old-single-ac" if len(self.acs) == 1 else "4:old-ranges"
 
     def expected(self):
@@ -66,7 +68,9 @@ def random_install(rng, gen, n_acs=None, n_zones=None, fmt=None):
         rng.shuffle(ids)
     if gen == 4 and fmt is None:
         fmt = rng.choice(["new", "new", "old"])
-    contiguous = gen == 5 or fmt == "old"
+        if n_acs >= 2 and rng.random() < 0.2:
+            fmt = "mixed"        # one ability message whose records differ in layout: some units report the group bitmap, others only start / count
+    contiguous = gen == 5 or fmt in ("old", "mixed")
     if contiguous:
         off = 0 if gen == 5 or rng.random() < 0.7 else rng.randint(0, 16 - n_zones)      # AT5: "zone index start from 0"
         numbers = [off + i for i in range(n_zones)]
@@ -106,6 +110,11 @@ def random_install(rng, gen, n_acs=None, n_zones=None, fmt=None):
             start, count = rng.randint(0, 15), rng.randint(0, 16)           # "If one AC only, ignore these two bytes"
         acs.append(dict(id=i, name=rng.choice(AC_NAMES), zones=sorted(b), start=start, count=count,
                         modes=0x1F, fans=0x7F if gen == 4 else 0xFF, lo=rng.randint(14, 18), hi=rng.randint(28, 32)))
+    if fmt == "mixed":
+        flags = [rng.random() < 0.5 for _ in acs]
+        flags[0], flags[-1] = True, False          # a record with the bitmap comes before one without
+        for a, f in zip(acs, flags):
+            a["bitmap"] = f
     return Inst(gen, zones, acs, fmt or "new")
 
 
@@ -134,7 +143,7 @@ def m_ability(inst, to=None):
         name = a["name"].encode()[:16].ljust(16, b"\0")
         if inst.gen == 4:
             rec = name + bytes([a["start"], a["count"], a["modes"], a["fans"], a["lo"], a["hi"]])
-            if inst.fmt == "new":
+            if inst.fmt == "new" or (inst.fmt == "mixed" and a.get("bitmap")):
                 bitmap = sum(1 << z for z in a["zones"])
                 rec += bytes([bitmap & 0xFF, bitmap >> 8])
         else:
